@@ -237,6 +237,12 @@ def t4_cycles() -> Iterator[Dict[str, Any]]:
                    mod("handlers", 1, ops=flat(star("errors", lvl=1), cls("HandlerError", "ProjError"))),
                    mod("parser", 1, ops=flat(star("errors", lvl=1), cls("TokenError", "ParseError", body=[fn("explain")]), cls("Token")))],
                   "T4", starcycle=True, cyclic=True)
+    # ... and the same with the names DEFINED AFTER the point of the cycle: which module is half-way depends on the schedule
+    # (the interpreter raises NameError when the cycle is entered through m1)
+    yield project([mod("p", pkg=True), mod("q", 1, pkg=True, ops=[frm("m2", "G", lvl=1)], all=["G"]),
+                   mod("m0", 2, ops=flat(fn("helper"))),
+                   mod("m1", 1, ops=flat(imp("p.q.m0", "z0"), cls("D", body=[fn("f")]))),
+                   mod("m2", 2, ops=flat(star("p.m1"), cls("G", "D", body=[fn("g")])))], "T4", starcycle="late", cyclic=True)
     # a module that does not parse in the middle of a chain
     yield project([mod("p", pkg=True), mod("a", 1, ops=flat(cls("A"))), mod("bad", 1, broken=True),
                    mod("c", 1, ops=flat(frm("bad", "Nope", lvl=1), frm("a", "A", lvl=1), cls("C", "A", "Nope")))], "T4", broken=True)
